@@ -45,6 +45,10 @@ def main(S, env):
     d = S.wrap(S.node.make(env))
     st_r, r = call(S.decode, d)
     st_o, o = call(oracle.ref_decode, S.RT, d)
+    if st_r == "exc" and S.prefix == "C17":
+        bad = own_name_error(r)
+        if bad:
+            return fail("C17/unresolved-name-in-generated-code:%s" % bad[0], input=d, error=bad[1])
     if st_r == "ok":
         if st_o != "ok":
             k = known_defect_suffix(S.RT, d, r)
@@ -67,3 +71,24 @@ def twin(S, env):
     d = S.wrap(S.node.make(env))
     st_r, r = call(S.decode, d)
     return not (st_r == "ok" and main(S, env))
+
+
+def own_name_error(exc):
+    """NameError, or an AttributeError of the library's own making (a dotted name that does not resolve: "module 'm' has no
+    attribute 'K'" / "type object 'K' has no attribute '__mashumaro...'"), anywhere in the exception chain"""
+    seen = set()
+    stack = [exc]
+    while stack:
+        e = stack.pop()
+        if e is None or id(e) in seen:
+            continue
+        seen.add(id(e))
+        if isinstance(e, NameError) and not isinstance(e, UnboundLocalError):
+            return ("NameError", str(e)[:200])
+        if isinstance(e, AttributeError):
+            m = str(e)
+            if m.startswith("module ") or "__mashumaro" in m or (m.startswith("type object") and "has no attribute" in m):
+                return ("AttributeError", m[:200])
+        stack.append(e.__cause__)
+        stack.append(e.__context__)
+    return None
